@@ -1,4 +1,4 @@
-(* C16 - proofs about the protocol model Sock/Model.v, over ALL interleavings of any number of processes. *)
+(* C16 - proofs about the (repaired, a924e5c) protocol model Sock/Model.v, over ALL interleavings of any number of processes. *)
 From Coq Require Import List Bool Arith Lia.
 Import ListNotations.
 From BD.Sock Require Import Model.
@@ -28,12 +28,13 @@ Ltac split_step Hs w :=
   repeat match type of Hs with
          | context [answering w] => destruct (answering w) eqn:An
          | context [match sock w with _ => _ end] => destruct (sock w) eqn:Sk
+         | context [match lock w with _ => _ end] => destruct (lock w) eqn:Lk
          | context [if ?b then _ else _] => destruct b
          end.
 Ltac step_cases Hs p w :=
   unfold step, cur in Hs;
   destruct (procs w p) as [pcv rf bf] eqn:Es; cbn [pc refused bindfail] in *;
-  pc_cases pcv Hs 15.
+  pc_cases pcv Hs 16.
 
 (* ---------------------------------------------------------------------------------------------
    the per-process bookkeeping invariant *)
@@ -53,23 +54,19 @@ Proof.
 Qed.
 
 Ltac fin :=
-  cbn [sock listening hist execd procs pc refused bindfail set_proc set_pc adv set_sock set_listening add_hist add_exec] in *;
-  unfold pcEnd, pcOpen, pcSteps, pcBind, pcCloseHist, pcLate, pcProbe, pcUnlink, pcShutUnlink, pcShutClose in *.
+  cbn [lock sock listening hist execd procs pc refused bindfail set_proc set_pc adv set_sock set_listening add_hist add_exec set_lock] in *;
+  unfold pcEnd, pcOpen, pcSteps, pcBind, pcCloseHist, pcProbe, pcUnlink, pcShutUnlink, pcShutClose, pcLock, pcUnlock in *.
 
 Lemma L_step l w w' : L w -> step l w = Some w' -> L w'.
 Proof.
   intros HL Hs q. pose proof (HL q) as Hq.
-  destruct l as [p|p]; pose proof (HL p) as Hp; unfold Lp in Hp, Hq |- *.
-  - step_cases Hs p w; fin; split_step Hs w; injection Hs as <-; fin; rewrite ?Es in *; fin;
+  destruct l as [p]; pose proof (HL p) as Hp; unfold Lp in Hp, Hq |- *.
+  step_cases Hs p w; fin; split_step Hs w; try discriminate Hs; injection Hs as <-; fin; rewrite ?Es in *; fin;
       (destruct (Nat.eq_dec q p) as [E|Nq];
        [ subst q; rewrite ?Es in *; rewrite ?upd_same; fin; rewrite ?in_snoc;
          use_le; repeat split; intros; use_le; try lia; try discriminate; try congruence; intuition (use_le; intuition (try lia; try discriminate; try congruence))
        | rewrite ?upd_other by exact Nq; fin; rewrite ?in_snoc;
          use_le; repeat split; intros; use_le; try lia; try discriminate; intuition (use_le; intuition (try lia; try discriminate; try congruence)) ]).
-  - step_cases Hs p w; try discriminate Hs; fin; injection Hs as <-; fin; rewrite ?Es in *; fin;
-      (destruct (Nat.eq_dec q p) as [E|Nq];
-       [ subst q; rewrite ?Es in *; rewrite ?upd_same; fin; use_le; repeat split; intros; use_le; try lia; try discriminate; intuition (use_le; intuition (try lia; try discriminate; try congruence))
-       | rewrite ?upd_other by exact Nq; fin; use_le; repeat split; intros; use_le; try lia; intuition (use_le; intuition (try lia; try discriminate; try congruence)) ]).
 Qed.
 
 Lemma L_run sched : forall w w', L w -> run sched w = Some w' -> L w'.
@@ -91,26 +88,22 @@ Proof.
   intros H0 HR Hr. pose proof (L_run sched _ _ (L_init s0 H0) HR p) as (_ & _ & _ & _ & H & _). exact (H Hr).
 Qed.
 
-(* ... and the refusal itself changes nothing but the refused process' own state *)
+(* ... and the refusal itself changes nothing but the refused process' own state (and releases the lock it held) *)
 Lemma refusal_step w p w' : cur w p = Some Probe -> answering w = true -> step (Do p) w = Some w' ->
   sock w' = sock w /\ hist w' = hist w /\ execd w' = execd w /\ (forall q, listening w' q = listening w q) /\
-  (forall q, q <> p -> procs w' q = procs w q) /\ refused (procs w' p) = true /\ pc (procs w' p) = pcEnd.
+  (forall q, q <> p -> procs w' q = procs w q) /\ refused (procs w' p) = true /\ pc (procs w' p) = pcEnd /\ lock w' = None.
 Proof.
   intros Hc Ha Hs. unfold step in Hs. rewrite Hc, Ha in Hs. injection Hs as <-. cbn.
   repeat split; auto. - intros q Hq. now apply upd_other. - now rewrite upd_same. - now rewrite upd_same.
 Qed.
 
 (* ---------------------------------------------------------------------------------------------
-   C16_after_bind *)
+   generic facts about steps *)
 Lemma pc_mono_step l w w' q : L w -> step l w = Some w' -> pc (procs w q) <= pc (procs w' q).
 Proof.
-  intros HL Hs. destruct l as [p|p]; pose proof (HL p) as Hp; unfold Lp in Hp.
-  - step_cases Hs p w; rewrite ?Es in Hp; fin;
-      split_step Hs w;
-      injection Hs as <-; fin;
-      (destruct (Nat.eq_dec q p) as [->|Nq]; [rewrite upd_same, ?Es; fin; lia | rewrite upd_other by exact Nq; lia]).
-  - step_cases Hs p w; try discriminate Hs; rewrite ?Es in Hp; fin; injection Hs as <-; fin;
-      (destruct (Nat.eq_dec q p) as [->|Nq]; [rewrite upd_same, ?Es; fin; lia | rewrite upd_other by exact Nq; lia]).
+  intros HL Hs. destruct l as [p]; pose proof (HL p) as Hp; unfold Lp in Hp.
+  step_cases Hs p w; fin; split_step Hs w; try discriminate Hs; injection Hs as <-; fin;
+      (destruct (Nat.eq_dec q p) as [E|Nq]; [subst q; rewrite upd_same, ?Es; fin; lia | rewrite upd_other by exact Nq; lia]).
 Qed.
 
 Lemma pc_mono_run sched : forall w w' q, L w -> run sched w = Some w' -> pc (procs w q) <= pc (procs w' q).
@@ -124,9 +117,8 @@ Qed.
 (* a step changes the process record of the moving process only *)
 Lemma step_other l w w' r : step l w = Some w' -> label_pid l <> r -> procs w' r = procs w r.
 Proof.
-  intros Hs Hn. destruct l as [p|p]; cbn [label_pid] in Hn.
-  - step_cases Hs p w; fin; split_step Hs w; injection Hs as <-; fin; apply upd_other; congruence.
-  - step_cases Hs p w; try discriminate Hs; fin; injection Hs as <-; fin; apply upd_other; congruence.
+  intros Hs Hn. destruct l as [p]; cbn [label_pid] in Hn.
+  step_cases Hs p w; fin; split_step Hs w; try discriminate Hs; injection Hs as <-; fin; apply upd_other; congruence.
 Qed.
 
 (* a refused process never moves again *)
@@ -134,7 +126,7 @@ Lemma refused_stable_step l w w' r : L w -> refused (procs w r) = true -> step l
 Proof.
   intros HL Rf Hs. destruct (Nat.eq_dec (label_pid l) r) as [E|N].
   - exfalso. pose proof (HL r) as (_ & _ & _ & _ & Hrf & _). destruct (Hrf Rf) as (Hend & _). unfold pcEnd in Hend.
-    destruct l as [p|p]; cbn [label_pid] in E; subst p; unfold step, cur in Hs; rewrite Hend in Hs; cbn in Hs; discriminate.
+    destruct l as [p]; cbn [label_pid] in E; subst p; unfold step, cur in Hs; rewrite Hend in Hs; cbn in Hs; discriminate.
   - now rewrite (step_other _ _ _ _ Hs N).
 Qed.
 Lemma refused_stable_run sched : forall w w' r, L w -> refused (procs w r) = true -> run sched w = Some w' -> refused (procs w' r) = true.
@@ -150,263 +142,209 @@ Lemma pass_probe l w w' r : step l w = Some w' -> pc (procs w r) <= pcProbe -> p
   l = Do r /\ pc (procs w r) = pcProbe.
 Proof.
   intros Hs H1 H2. destruct (Nat.eq_dec (label_pid l) r) as [E|N].
-  - destruct l as [p|p]; cbn [label_pid] in E; subst p.
-    + split; [reflexivity|]. step_cases Hs r w; fin; try lia; split_step Hs w; injection Hs as <-; fin; rewrite upd_same in H2; rewrite ?Es in *; fin; lia.
-    + exfalso. step_cases Hs r w; try discriminate Hs; fin; lia.
+  - destruct l as [p]; cbn [label_pid] in E; subst p.
+    split; [reflexivity|]. step_cases Hs r w; fin; try lia; split_step Hs w; try discriminate Hs; injection Hs as <-; fin; rewrite upd_same in H2; rewrite ?Es in *; fin; lia.
   - rewrite (step_other _ _ _ _ Hs N) in H2. lia.
 Qed.
 
-(* q is serving and nobody else is past its probe *)
-Definition K (q : nat) (w : world) : Prop :=
-  sock w = Bound q /\ listening w q = true /\
-  pcSteps <= pc (procs w q) <= pcShutUnlink /\ bindfail (procs w q) = false /\
-  forall r, r <> q -> pc (procs w r) <= pcProbe \/ pc (procs w r) = pcEnd.
-
-Lemma K_step q l w w' : L w -> K q w -> step l w = Some w' -> pc (procs w' q) <= pcShutUnlink ->
-  K q w' /\ hist w' = hist w /\ (forall r, r <> q -> (In r (execd w') <-> In r (execd w))) /\
-  (forall r, r <> q -> pc (procs w r) = pcProbe -> l = Do r -> refused (procs w' r) = true).
-Proof.
-  intros HL (Ks & Kl & Kpc & Kbf & Ko) Hs Hle.
-  assert (An : answering w = true) by (unfold answering; now rewrite Ks).
-  destruct l as [p|p].
-  - destruct (Nat.eq_dec p q) as [->|Npq].
-    + (* the serving process itself moves: Steps, Handlers, WriteFinal (ShutUnlink is excluded by the premise) *)
-      step_cases Hs q w; fin; try lia; try (rewrite An in Hs); try (rewrite Ks in Hs); split_step Hs w; try discriminate Kbf; injection Hs as <-;
-        unfold K; fin; rewrite ?upd_same in *; rewrite ?Es in *; fin; try lia;
-        repeat split; auto; try lia;
-        try (intros r Hr; rewrite upd_other by exact Hr; now auto);
-        try (rewrite ?in_snoc; intuition congruence);
-        try (intros r Hr _ E; injection E as ->; contradiction).
-    + (* another process moves: it is before or at its probe (refused there), or finished *)
-      destruct (Ko p Npq) as [Hp|Hp]; unfold pcProbe, pcEnd in Hp.
-      * step_cases Hs p w; fin; try lia; try (rewrite An in Hs); injection Hs as <-;
-          unfold K; fin; rewrite ?Es in *; fin; rewrite ?(upd_other _ _ _ q) by (intros E; apply Npq; now rewrite E);
-          repeat split; auto; try tauto;
-          try (intros r Hr; destruct (Nat.eq_dec r p) as [->|Nr]; [rewrite upd_same; fin; lia | rewrite upd_other by exact Nr; now auto]);
-          try (intros r Hr Hpc E; injection E as <-; rewrite ?upd_same; fin; rewrite ?Es in Hpc; fin; try reflexivity; lia).
-      * unfold step, cur in Hs. rewrite Hp in Hs. cbn in Hs. discriminate.
-  - (* Exit p: only at the late unlink *)
-    destruct (Nat.eq_dec p q) as [->|Npq].
-    + step_cases Hs q w; try discriminate Hs; fin; lia.
-    + destruct (Ko p Npq) as [Hp|Hp]; unfold pcProbe, pcEnd in Hp;
-        step_cases Hs p w; try discriminate Hs; fin; lia.
-Qed.
-
-(* C16_after_bind: from a state where q serves and nobody else is past its probe, in EVERY continuation in which q has
-   not begun its shutdown: q still serves, the history is unchanged, no other process executed anything, and every
-   other process that moved past its probe position was refused *)
-Theorem after_bind q sched : forall w w', L w -> K q w -> run sched w = Some w' -> pc (procs w' q) <= pcShutUnlink ->
-  K q w' /\ hist w' = hist w /\ (forall r, r <> q -> (In r (execd w') <-> In r (execd w))) /\
-  (forall r, r <> q -> pc (procs w r) <= pcProbe -> pcProbe < pc (procs w' r) -> refused (procs w' r) = true).
-Proof.
-  induction sched as [|l rest IH]; simpl; intros w w' HL HK HR Hle.
-  - injection HR as <-. split; [exact HK|]. split; [reflexivity|]. split; [tauto|]. intros r _ H1 H2. lia.
-  - destruct (step l w) as [w1|] eqn:S; [|discriminate].
-    pose proof (L_step _ _ _ HL S) as HL1.
-    assert (Hle1 : pc (procs w1 q) <= pcShutUnlink) by (pose proof (pc_mono_run rest _ _ q HL1 HR); lia).
-    destruct (K_step q l w w1 HL HK S Hle1) as (HK1 & Hh1 & He1 & Hr1).
-    destruct (IH w1 w' HL1 HK1 HR Hle) as (HK' & Hh' & He' & Hr').
-    split; [exact HK'|]. split; [congruence|]. split; [intros r Hr; rewrite (He' r Hr); apply He1; exact Hr|].
-    intros r Hr Hpc Hpc'.
-    destruct (le_lt_dec (pc (procs w1 r)) pcProbe) as [Hle2|Hgt2].
-    + apply Hr'; auto.
-    + (* r moved past its probe position in this very step: it took its probe, was refused, and stays so *)
-      destruct (pass_probe l w w1 r S Hpc Hgt2) as [-> E2].
-      pose proof (Hr1 r Hr E2 eq_refl) as Rf.
-      exact (refused_stable_run rest _ _ r HL1 Rf HR).
-Qed.
-
-(* the premise K is what a solo start reaches after its bind, from a clean or stale socket path *)
-Example K_reached : K 0 (match run (does 0 8) (init Absent) with Some w => w | None => init Absent end)
-                 /\ K 0 (match run (does 0 8) (init Stale) with Some w => w | None => init Absent end).
-Proof.
-  split; (unfold K, pcSteps, pcShutUnlink, pcProbe, pcEnd; cbn; repeat split; auto; try lia;
-          try (intros r Hr; destruct r; [contradiction|cbn; lia])).
-Qed.
-
 (* ---------------------------------------------------------------------------------------------
-   C16_mutual_exclusion is FALSE of the faithful model (F16a): witnesses by evaluation *)
-Definition both_active (w : world) (p q : nat) : bool := active (procs w p) && active (procs w q).
+   the protocol invariant of the repaired code *)
+Definition I (w : world) : Prop :=
+  (forall p, pcProbe <= pc (procs w p) <= pcUnlock -> lock w = Some p) /\
+  (forall p, lock w = Some p -> pcProbe <= pc (procs w p) <= pcUnlock) /\
+  (forall p, pcUnlock <= pc (procs w p) <= pcShutUnlink -> sock w = Bound p /\ listening w p = true) /\
+  (forall p q, p <> q -> pcProbe < pc (procs w p) <= pcBind -> pcUnlock <= pc (procs w q) <= pcShutUnlink -> False) /\
+  (forall p, pc (procs w p) = pcBind -> sock w = Absent) /\
+  (forall p, bindfail (procs w p) = false).
 
-(* the racing schedule: both probe before either binds; the second binder unlinks the first one's socket *)
-Definition race_sched : list label := does 0 3 ++ does 1 3 ++ does 0 5 ++ does 1 6.
-
-Lemma mutual_exclusion_refuted :
-  exists sched w, run sched (init Absent) = Some w /\
-    both_active w 0 1 = true /\ mem 0 (execd w) = true /\ mem 1 (execd w) = true /\
-    (* process 0 still runs but its endpoint is gone: the path now belongs to process 1 *)
-    sock w = Bound 1 /\ listening w 0 = true.
-Proof. exists (race_sched ++ [Do 0]). eexists. split; [vm_compute; reflexivity|]. vm_compute. repeat split. Qed.
-
-(* ... after which process 0's own shutdown removes process 1's endpoint, and a third start is let in as well *)
-Lemma third_start_admitted :
-  exists sched w, run sched (init Absent) = Some w /\
-    active (procs w 1) = true /\ active (procs w 2) = true /\ mem 2 (execd w) = true /\ mem 1 (execd w) = true /\ mem 0 (execd w) = true.
-Proof. exists (race_sched ++ does 0 4 ++ does 2 9). eexists. split; [vm_compute; reflexivity|]. vm_compute. repeat split. Qed.
-
-(* the variant where the second binds first: the first fails with "failed to start the unix socket" although it has
-   already recorded a run - the loser is NOT silent *)
-Lemma loser_records_refuted :
-  exists sched w, run sched (init Absent) = Some w /\
-    bindfail (procs w 0) = true /\ mem 0 (hist w) = true /\ mem 0 (execd w) = false /\ active (procs w 1) = true.
-Proof. exists (does 0 3 ++ does 1 3 ++ does 0 4 ++ does 1 5 ++ does 0 1). eexists. split; [vm_compute; reflexivity|]. vm_compute. repeat split. Qed.
-
-(* a finishing run's late unlink deletes the endpoint of its successor: a third start is admitted while the
-   successor is active, although no probe raced with a bind *)
-Lemma late_unlink_refuted :
-  exists sched w, run sched (init Absent) = Some w /\
-    active (procs w 1) = true /\ active (procs w 2) = true /\ mem 1 (execd w) = true /\ mem 2 (execd w) = true.
-Proof. exists (does 0 14 ++ does 1 9 ++ [Do 0] ++ does 2 9). eexists. split; [vm_compute; reflexivity|]. vm_compute. repeat split. Qed.
-
-(* ---------------------------------------------------------------------------------------------
-   C16_mutual_exclusion_partial: the guarded semantics (no probe while another process is between its own probe and
-   bind, or between its shutdown unlink and its exit) *)
-Definition G (n : nat) (w : world) : Prop :=
-  (forall p, n <= p -> procs w p = proc0) /\
-  (forall p q, p <> q -> busy (procs w p) = true -> busy (procs w q) = true -> False) /\
-  (forall r, pcSteps <= pc (procs w r) <= pcShutUnlink -> sock w = Bound r /\ listening w r = true) /\
-  (forall r, bindfail (procs w r) = false) /\
-  (forall r, pc (procs w r) = pcBind -> sock w = Absent).
-
-Lemma G_init n s0 : G n (init s0).
+Lemma I_init s0 : I (init s0).
 Proof.
-  unfold G, init; cbn. repeat split; auto; intros; try discriminate; unfold pcSteps, pcBind in *; try lia.
+  unfold I, init; cbn. unfold pcProbe, pcUnlock, pcShutUnlink, pcBind. repeat split; intros; try lia; try discriminate; auto.
 Qed.
 
-Lemma busy_spec s : busy s = true <-> 3 <= pc s <= 14.
-Proof. unfold busy. rewrite andb_true_iff, !Nat.leb_le. tauto. Qed.
-Lemma in_danger_false s : in_danger s = false -> ~ (3 <= pc s <= 7) /\ ~ (12 <= pc s <= 14).
+Lemma answering_of w q : sock w = Bound q -> listening w q = true -> answering w = true.
+Proof. intros S Lq. unfold answering. now rewrite S. Qed.
+
+Lemma I_step l w w' : L w -> I w -> step l w = Some w' -> I w'.
 Proof.
-  unfold in_danger, pcBind, pcShutClose, pcLate. rewrite orb_false_iff, !andb_false_iff, !Nat.leb_gt. lia.
+  intros HL (Ia & Ib & Ic & Id & Ie & If_) Hs. destruct l as [p0].
+  pose proof (HL p0) as Hp. unfold Lp in Hp.
+  pose proof (Ia p0) as Ia0. pose proof (Ib p0) as Ib0. pose proof (Ic p0) as Ic0. pose proof (Ie p0) as Ie0. pose proof (If_ p0) as If0.
+  step_cases Hs p0 w; fin; rewrite ?Es in *; fin; split_step Hs w; try discriminate Hs;
+    try (exfalso; specialize (Ie0 eq_refl); congruence);
+    try discriminate If0;
+    injection Hs as <-; unfold I; fin; rewrite ?Es in *; fin;
+    (split; [|split; [|split; [|split; [|split]]]];
+    [ (* Ia *)
+      intros p Hr; destruct (Nat.eq_dec p p0) as [E|N];
+      [ subst p; rewrite ?upd_same in Hr; fin; first [ reflexivity | lia | apply Ia0; lia ]
+      | rewrite ?upd_other in Hr by exact N; pose proof (Ia p Hr) as X;
+        first [ exact X | congruence | (assert (Y : lock w = Some p0) by (apply Ia0; lia); congruence) ] ]
+    | (* Ib *)
+      intros p Hl; destruct (Nat.eq_dec p p0) as [E|N];
+      [ subst p; rewrite ?upd_same; fin; first [ lia | discriminate Hl | (specialize (Ib0 Hl); lia) ]
+      | rewrite ?upd_other by exact N; first [ discriminate Hl | (apply Ib; exact Hl) | (injection Hl as Hl; congruence) ] ]
+    | (* Ic *)
+      intros p Hr; destruct (Nat.eq_dec p p0) as [E|N];
+      [ subst p; rewrite ?upd_same in *; fin; first [ lia | (split; reflexivity) | (apply Ic0; lia) ]
+      | rewrite ?upd_other in * by exact N; pose proof (Ic p Hr) as [X1 X2];
+        first [ (split; assumption)
+              | (exfalso; apply (Id p0 p (fun E => N (eq_sym E))); rewrite ?Es; fin; lia)
+              | (exfalso; assert (Y : sock w = Bound p0 /\ listening w p0 = true) by (apply Ic0; lia); destruct Y as [Y _]; congruence) ] ]
+    | (* Id *)
+      intros p q Npq Hp1 Hq1;
+      destruct (Nat.eq_dec p p0) as [Ep|Np]; destruct (Nat.eq_dec q p0) as [Eq|Nq]; try congruence; try subst p; try subst q;
+      try rewrite upd_same in Hp1; try rewrite upd_same in Hq1; try rewrite upd_other in Hp1 by assumption; try rewrite upd_other in Hq1 by assumption; fin;
+      first [ lia
+            | (apply (Id p q Npq); assumption)
+            | (apply (Id p0 q Npq); rewrite ?Es; fin; [lia | assumption])
+            | (apply (Id p p0 Npq); rewrite ?Es; fin; [assumption | lia])
+            | (destruct (Ic q Hq1) as [S1 S2]; rewrite (answering_of w q S1 S2) in An; discriminate An)
+            | (assert (Y : lock w = Some p0) by (apply Ia0; lia); assert (Z : lock w = Some p) by (apply Ia; lia); congruence) ]
+    | (* Ie *)
+      intros p Hr; destruct (Nat.eq_dec p p0) as [E|N];
+      [ subst p; rewrite ?upd_same in Hr; fin; first [ lia | reflexivity ]
+      | rewrite ?upd_other in Hr by exact N;
+        first [ reflexivity | (apply (Ie p); exact Hr)
+              | (exfalso; assert (Y : lock w = Some p0) by (apply Ia0; lia); assert (Z : lock w = Some p) by (apply Ia; lia); congruence) ] ]
+    | (* If *)
+      intros p; destruct (Nat.eq_dec p p0) as [E|N];
+      [ subst p; rewrite upd_same; fin; first [ reflexivity | exact If0 ]
+      | rewrite upd_other by exact N; apply If_ ] ]).
 Qed.
 
-Lemma others_safe n w p : others_in_danger n w p = false -> forall r, r < n -> r <> p -> in_danger (procs w r) = false.
+Lemma I_run sched : forall w w', L w -> I w -> run sched w = Some w' -> L w' /\ I w'.
 Proof.
-  unfold others_in_danger. intros H r Hr Np.
-  destruct (in_danger (procs w r)) eqn:E; [|reflexivity]. exfalso.
-  assert (X : existsb (fun r0 => negb (r0 =? p) && in_danger (procs w r0)) (seq 0 n) = true).
-  { apply existsb_exists. exists r. split; [apply in_seq; lia|]. rewrite E. destruct (Nat.eqb_spec r p); [contradiction|reflexivity]. }
-  congruence.
-Qed.
-
-Lemma G_step n l w w' : L w -> G n w -> gstep n l w = Some w' -> G n w' /\ step l w = Some w'.
-Proof.
-  intros HL (Gn & Gx & Gs & Gb & Ga) Hg. unfold gstep in Hg.
-  destruct (label_pid l <? n) eqn:Hlt; [|discriminate]. cbn [negb] in Hg. apply Nat.ltb_lt in Hlt.
-  (* the plain step, plus the guard when it is a probe *)
-  assert (Hs : step l w = Some w' /\
-               (forall p, l = Do p -> pc (procs w p) = pcProbe -> forall r, r <> p -> in_danger (procs w r) = false)).
-  { destruct l as [p|p]; cbn [label_pid] in *.
-    - destruct (cur w p) as [a|] eqn:C.
-      + destruct a; try (split; [exact Hg| intros p0 E Hpc r Hr; injection E as <-; unfold cur in C; rewrite Hpc in C; cbn in C; discriminate]).
-        destruct (others_in_danger n w p) eqn:O; [discriminate|]. split; [exact Hg|].
-        intros p0 E _ r Hr. injection E as <-.
-        destruct (lt_dec r n) as [Hrn|Hrn]; [eapply others_safe; eauto|]. rewrite Gn by lia. reflexivity.
-      + split; [exact Hg|]. intros p0 E Hpc. injection E as <-. unfold cur in C. rewrite Hpc in C. cbn in C. discriminate.
-    - destruct (cur w p); (split; [exact Hg|intros; discriminate]). }
-  destruct Hs as [Hs Hguard]. split; [|exact Hs]. clear Hg.
-  set (p := label_pid l) in *.
-  (* facts about every other process when p is busy *)
-  assert (Other : busy (procs w p) = true -> forall r, r <> p -> ~ (3 <= pc (procs w r) <= 14)).
-  { intros Bp r Hr Br. apply (Gx p r); auto. now apply busy_spec. }
-  pose proof (HL p) as Hp. unfold Lp in Hp.
-  destruct l as [p0|p0]; cbn [label_pid] in p; subst p.
-  - (* Do p0 *)
-    pose proof (Hguard p0 eq_refl) as Hgd.
-    step_cases Hs p0 w; fin;
-      split_step Hs w;
-      try (specialize (Gb p0); rewrite Es in Gb; discriminate Gb);
-      try (specialize (Ga p0); rewrite Es in Ga; cbn in Ga; specialize (Ga eq_refl); congruence);
-      injection Hs as <-; unfold G; fin; rewrite ?Es in *; fin;
-      (* everybody else is before its probe or finished, whenever p0 is busy before or after the step *)
-      try (assert (Bp : forall r, r <> p0 -> ~ (3 <= pc (procs w r) <= 14))
-            by first [ apply Other; reflexivity
-                     | intros r Nr Br; specialize (Hgd eq_refl r Nr); apply in_danger_false in Hgd; destruct Hgd as [D1 D2];
-                       assert (R : 8 <= pc (procs w r) <= 11) by lia;
-                       destruct (Gs r R) as [S1 S2]; unfold answering in An; rewrite S1, S2 in An; discriminate An ]);
-      (split; [|split; [|split; [|split]]];
-      [ intros r Hr; rewrite ?upd_other by lia; apply Gn; exact Hr
-      | intros a b Nab Ba Bb; apply busy_spec in Ba; apply busy_spec in Bb;
-        destruct (Nat.eq_dec a p0) as [Ea|Na]; destruct (Nat.eq_dec b p0) as [Eb|Nb]; try congruence; try subst a; try subst b;
-        try rewrite upd_same in Ba; try rewrite upd_same in Bb; try rewrite upd_other in Ba by assumption; try rewrite upd_other in Bb by assumption; fin;
-        first [ lia | apply (Bp b Nb); assumption | apply (Bp a Na); assumption
-              | apply (Gx a b Nab); apply busy_spec; assumption ]
-      | intros r Hr; destruct (Nat.eq_dec r p0) as [Er|Nr];
-        [ subst r; rewrite ?upd_same in *; fin; first [ lia | split; reflexivity | apply Gs; rewrite Es; fin; lia ]
-        | rewrite ?upd_other in * by exact Nr;
-          first [ exfalso; apply (Bp r Nr); lia | apply Gs; exact Hr ] ]
-      | intros r; destruct (Nat.eq_dec r p0) as [Er|Nr];
-        [ subst r; rewrite upd_same; fin; first [ reflexivity | specialize (Gb p0); rewrite Es in Gb; exact Gb ]
-        | rewrite upd_other by exact Nr; apply Gb ]
-      | intros r Hr; destruct (Nat.eq_dec r p0) as [Er|Nr];
-        [ subst r; rewrite upd_same in Hr; fin; first [ lia | reflexivity ]
-        | rewrite upd_other in Hr by exact Nr;
-          first [ exfalso; apply (Bp r Nr); lia
-                | apply (Ga r); exact Hr
-                | (* a probe (refused) while r sits before its bind: excluded by the guard *)
-                  exfalso; specialize (Hgd eq_refl r Nr); apply in_danger_false in Hgd; lia ] ] ]).
-  - (* Exit p0: only at the late unlink; p0 stops being busy *)
-    step_cases Hs p0 w; try discriminate Hs; fin; injection Hs as <-; unfold G; fin; rewrite ?Es in *; fin.
-    assert (Bp : forall r, r <> p0 -> ~ (3 <= pc (procs w r) <= 14)) by (apply Other; reflexivity).
-    split; [|split; [|split; [|split]]].
-    + intros r Hr. rewrite upd_other by lia. apply Gn. exact Hr.
-    + intros a b Nab Ba Bb. apply busy_spec in Ba. apply busy_spec in Bb.
-      destruct (Nat.eq_dec a p0) as [Ea|Na]; [subst a; rewrite upd_same in Ba; fin; lia|].
-      destruct (Nat.eq_dec b p0) as [Eb|Nb]; [subst b; rewrite upd_same in Bb; fin; lia|].
-      rewrite upd_other in Ba by assumption. rewrite upd_other in Bb by assumption. apply (Gx a b Nab); apply busy_spec; assumption.
-    + intros r Hr. destruct (Nat.eq_dec r p0) as [Er|Nr]; [subst r; rewrite upd_same in Hr; fin; lia|].
-      rewrite upd_other in Hr by exact Nr. apply Gs; exact Hr.
-    + intros r. destruct (Nat.eq_dec r p0) as [Er|Nr]; [subst r; rewrite upd_same; fin; specialize (Gb p0); rewrite Es in Gb; exact Gb|].
-      rewrite upd_other by exact Nr. apply Gb.
-    + intros r Hr. destruct (Nat.eq_dec r p0) as [Er|Nr]; [subst r; rewrite upd_same in Hr; fin; lia|].
-      rewrite upd_other in Hr by exact Nr. apply (Ga r); exact Hr.
-Qed.
-
-Lemma G_run n sched : forall w w', L w -> G n w -> grun n sched w = Some w' -> G n w' /\ L w' /\ run sched w = Some w'.
-Proof.
-  induction sched as [|l r IH]; simpl; intros w w' HL HG H.
+  induction sched as [|l r IH]; simpl; intros w w' HL HI H.
   - injection H as <-. auto.
-  - destruct (gstep n l w) as [w1|] eqn:S; [|discriminate].
-    destruct (G_step n l w w1 HL HG S) as [HG1 S1]. rewrite S1. apply IH; auto. eapply L_step; eauto.
+  - destruct (step l w) as [w1|] eqn:S; [|discriminate].
+    apply (IH w1); auto; [eapply L_step | eapply I_step]; eauto.
 Qed.
 
-(* C16_mutual_exclusion_partial *)
-Theorem mutual_exclusion_partial n s0 sched w :
-  (forall q, s0 <> Bound q) -> grun n sched (init s0) = Some w ->
-  (* at most one process is between its passed probe and its exit - hence at most one executes steps at a time *)
-  (forall p q, p <> q -> ~ (busy (procs w p) = true /\ busy (procs w q) = true)) /\
-  (forall p q, p <> q -> ~ (active (procs w p) = true /\ active (procs w q) = true)) /\
-  (* the active process is reachable: its endpoint answers *)
-  (forall p, active (procs w p) = true -> sock w = Bound p /\ listening w p = true) /\
-  (* nobody fails to bind, and whoever was refused recorded and executed nothing *)
+Lemma owner_spec s : owner s = true <-> pcUnlock <= pc s <= pcShutUnlink /\ bindfail s = false.
+Proof. unfold owner. rewrite !andb_true_iff, !Nat.leb_le, negb_true_iff. tauto. Qed.
+Lemma active_spec s : active s = true <-> pcSteps <= pc s <= pcShutUnlink /\ bindfail s = false.
+Proof. unfold active. rewrite !andb_true_iff, !Nat.leb_le, negb_true_iff. tauto. Qed.
+Lemma in_section_spec s : in_section s = true <-> pcProbe <= pc s <= pcUnlock.
+Proof. unfold in_section. rewrite !andb_true_iff, !Nat.leb_le. tauto. Qed.
+
+(* C16_mutual_exclusion - the FULL statement, for any number of processes and every interleaving *)
+Theorem mutual_exclusion s0 sched w :
+  (forall q, s0 <> Bound q) -> run sched (init s0) = Some w ->
+  (* at most one process holds the lock, i.e. is inside its probe-and-bind section *)
+  (forall p q, in_section (procs w p) = true -> in_section (procs w q) = true -> p = q) /\
+  (* at most one process is past that section un-refused and has not yet given up the socket path *)
+  (forall p q, owner (procs w p) = true -> owner (procs w q) = true -> p = q) /\
+  (* ... hence two starts never execute steps at the same time *)
+  (forall p q, active (procs w p) = true -> active (procs w q) = true -> p = q) /\
+  (* its endpoint answers: the path is its own socket and it listens *)
+  (forall p, owner (procs w p) = true -> sock w = Bound p /\ listening w p = true) /\
+  (* whoever executed steps earlier has removed its socket before the currently active run passed its probe *)
+  (forall p q, p <> q -> In p (execd w) -> active (procs w q) = true -> pcShutUnlink < pc (procs w p)) /\
+  (* nobody fails to bind, and the loser (refused) recorded and executed nothing *)
   (forall p, bindfail (procs w p) = false) /\
   (forall p, refused (procs w p) = true -> ~ In p (hist w) /\ ~ In p (execd w)).
 Proof.
   intros H0 HR.
-  destruct (G_run n sched _ _ (L_init s0 H0) (G_init n s0) HR) as ((Gn & Gx & Gs & Gb & Ga) & HL & Hrun).
-  assert (AB : forall p, active (procs w p) = true -> pcSteps <= pc (procs w p) <= pcShutUnlink).
-  { intros p. unfold active. rewrite !andb_true_iff, !Nat.leb_le. tauto. }
-  repeat split.
-  - intros p q N [B1 B2]. exact (Gx p q N B1 B2).
-  - intros p q N [A1 A2]. apply AB in A1, A2. unfold pcSteps, pcShutUnlink in *.
-    apply (Gx p q N); apply busy_spec; lia.
-  - apply Gs, AB. assumption.
-  - apply Gs, AB. assumption.
-  - exact Gb.
-  - pose proof (HL p) as (_ & _ & _ & _ & Hrf & _). apply Hrf. assumption.
-  - pose proof (HL p) as (_ & _ & _ & _ & Hrf & _). apply Hrf. assumption.
+  destruct (I_run sched _ _ (L_init s0 H0) (I_init s0) HR) as (HL & Ia & Ib & Ic & Id & Ie & If_).
+  assert (OW : forall p q, owner (procs w p) = true -> owner (procs w q) = true -> p = q).
+  { intros p q Op Oq. apply owner_spec in Op, Oq. destruct (Ic p (proj1 Op)) as [S1 _]. destruct (Ic q (proj1 Oq)) as [S2 _]. congruence. }
+  assert (AO : forall p, active (procs w p) = true -> owner (procs w p) = true).
+  { intros p A. apply active_spec in A. apply owner_spec. unfold pcSteps, pcUnlock, pcShutUnlink in *. split; [lia|tauto]. }
+  split; [|split; [|split; [|split; [|split; [|split]]]]].
+  - intros p q Sp Sq. apply in_section_spec in Sp, Sq. pose proof (Ia p Sp). pose proof (Ia q Sq). congruence.
+  - exact OW.
+  - intros p q Ap Aq. apply OW; apply AO; assumption.
+  - intros p Op. apply owner_spec in Op. apply Ic. tauto.
+  - intros p q N Ip Aq. destruct (le_lt_dec (pc (procs w p)) pcShutUnlink) as [Hle|Hgt]; [|exact Hgt]. exfalso.
+    pose proof (HL p) as (_ & _ & He & _). unfold pcSteps, pcShutUnlink, pcUnlock in *.
+    assert (Op : owner (procs w p) = true).
+    { apply owner_spec. unfold pcUnlock, pcShutUnlink. split; [|apply If_].
+      destruct (le_lt_dec (pc (procs w p)) 10) as [X|X]; [exfalso; exact (He X Ip)|lia]. }
+    apply N. apply OW; [exact Op | apply AO; exact Aq].
+  - exact If_.
+  - intros p Rf. pose proof (HL p) as (_ & _ & _ & _ & Hrf & _). apply Hrf in Rf. tauto.
 Qed.
 
-(* the guard is satisfiable by non-trivial schedules: a second start while the first serves (refused), and a second
-   start after the first has exited (both execute, one after the other) *)
-Example guard_sat_refused :
-  exists w, grun 2 (does 0 9 ++ does 1 3 ++ does 0 6) (init Absent) = Some w /\
-            outcomes 2 w = [(1, true, true); (2, false, false)].
-Proof. eexists. split; vm_compute; reflexivity. Qed.
-Example guard_sat_sequential :
-  exists w, grun 2 (does 0 15 ++ does 1 15) (init Stale) = Some w /\
-            outcomes 2 w = [(1, true, true); (1, true, true)] /\ execd w = [0; 1].
-Proof. eexists. split; [vm_compute; reflexivity|]. vm_compute. auto. Qed.
-(* ... and it really excludes the racing schedule *)
-Example guard_rejects_race : grun 2 race_sched (init Absent) = None.
+(* ---------------------------------------------------------------------------------------------
+   C16_after_bind, from ANY reachable state: while q owns the socket path (bound, shutdown not begun) *)
+Lemma owner_step q l w w' : L w -> I w -> owner (procs w q) = true -> step l w = Some w' ->
+  hist w' = hist w /\ (forall r, r <> q -> (In r (execd w') <-> In r (execd w))) /\
+  (forall r, r <> q -> pc (procs w r) = pcProbe -> l = Do r -> refused (procs w' r) = true).
+Proof.
+  intros HL (Ia & Ib & Ic & Id & Ie & If_) Oq Hs. apply owner_spec in Oq. destruct Oq as [Oq _].
+  destruct (Ic q Oq) as [S1 S2]. pose proof (answering_of w q S1 S2) as An.
+  destruct l as [p0]. destruct (Nat.eq_dec p0 q) as [E|N].
+  - subst p0. step_cases Hs q w; fin; try lia; split_step Hs w; try discriminate Hs; injection Hs as <-; fin;
+      (split; [reflexivity|]); (split; [intros r Hr; rewrite ?in_snoc; intuition congruence|]);
+      intros r Hr _ E; injection E as ->; contradiction.
+  - pose proof (Id p0 q N) as Idq.
+    step_cases Hs p0 w; fin; rewrite ?Es in *; fin; try rewrite An in Hs; split_step Hs w; try discriminate Hs;
+      try (exfalso; apply Idq; lia);
+      try (exfalso; assert (Y : sock w = Bound p0 /\ listening w p0 = true) by (apply (Ic p0); rewrite Es; fin; lia); destruct Y; congruence);
+      injection Hs as <-; fin;
+      (split; [reflexivity|]); (split; [intros; reflexivity|]);
+      intros r Hr Hpc E; injection E as <-; rewrite ?upd_same; fin; try reflexivity; rewrite ?Es in Hpc; fin; lia.
+Qed.
+
+Theorem after_bind q sched : forall w w', L w -> I w -> owner (procs w q) = true -> run sched w = Some w' ->
+  pc (procs w' q) <= pcShutUnlink ->
+  (owner (procs w' q) = true /\ sock w' = Bound q /\ listening w' q = true) /\
+  hist w' = hist w /\ (forall r, r <> q -> (In r (execd w') <-> In r (execd w))) /\
+  (forall r, r <> q -> pc (procs w r) <= pcProbe -> pcProbe < pc (procs w' r) -> refused (procs w' r) = true).
+Proof.
+  induction sched as [|l rest IH]; simpl; intros w w' HL HI Oq HR Hle.
+  - injection HR as <-. split.
+    + split; [exact Oq|]. destruct HI as (_ & _ & Ic & _). apply owner_spec in Oq. apply Ic. tauto.
+    + split; [reflexivity|]. split; [tauto|]. intros r _ H1 H2. lia.
+  - destruct (step l w) as [w1|] eqn:S; [|discriminate].
+    pose proof (L_step _ _ _ HL S) as HL1. pose proof (I_step _ _ _ HL HI S) as HI1.
+    assert (Oq1 : owner (procs w1 q) = true).
+    { apply owner_spec. apply owner_spec in Oq. destruct HI1 as (_ & _ & _ & _ & _ & If1).
+      pose proof (pc_mono_step _ _ _ q HL S). pose proof (pc_mono_run rest _ _ q HL1 HR). split; [lia|apply If1]. }
+    destruct (owner_step q l w w1 HL HI Oq S) as (Hh1 & He1 & Hr1).
+    destruct (IH w1 w' HL1 HI1 Oq1 HR Hle) as (HK' & Hh' & He' & Hr').
+    split; [exact HK'|]. split; [congruence|]. split; [intros r Hr; rewrite (He' r Hr); apply He1; exact Hr|].
+    intros r Hr Hpc Hpc'.
+    destruct (le_lt_dec (pc (procs w1 r)) pcProbe) as [Hle2|Hgt2].
+    + apply Hr'; auto.
+    + destruct (pass_probe l w w1 r S Hpc Hgt2) as [-> E2].
+      pose proof (Hr1 r Hr E2 eq_refl) as Rf.
+      exact (refused_stable_run rest _ _ r HL1 Rf HR).
+Qed.
+
+(* every state reachable from a clean or stale socket path satisfies both invariants *)
+Lemma reachable_inv s0 sched w : (forall p, s0 <> Bound p) -> run sched (init s0) = Some w -> L w /\ I w.
+Proof. intros H R. exact (I_run sched _ _ (L_init s0 H) (I_init s0) R). Qed.
+
+(* the premise is what a solo start reaches after its bind, from a clean or stale socket path *)
+Example owner_reached :
+  (exists w, run (does 0 9) (init Absent) = Some w /\ owner (procs w 0) = true) /\
+  (exists w, run (does 0 9) (init Stale) = Some w /\ owner (procs w 0) = true).
+Proof. split; (eexists; split; [vm_compute; reflexivity|reflexivity]). Qed.
+
+(* ---------------------------------------------------------------------------------------------
+   the schedules that refuted mutual exclusion before the repair (F16a), replayed on the repaired protocol *)
+Definition mem_all (w : world) (n : nat) := outcomes n w.
+
+(* 1. both probe before either binds: the second Lock is not enabled while the first is inside its section ... *)
+Example race_not_executable : run (does 0 4 ++ does 1 3) (init Absent) = None.
 Proof. vm_compute. reflexivity. Qed.
+(* ... the second start waits, probes after the first's bind and is refused; the first is untouched *)
+Example race_repaired :
+  exists w, run (does 0 4 ++ does 1 2 ++ does 0 7 ++ does 1 2 ++ does 0 5) (init Absent) = Some w /\
+            outcomes 2 w = [(1, true, true); (2, false, false)] /\ hist w = [0] /\ execd w = [0].
+Proof. eexists. split; [vm_compute; reflexivity|]. vm_compute. auto. Qed.
+(* 2. a third start while the first serves is refused too *)
+Example third_start_repaired :
+  exists w, run (does 0 11 ++ does 1 4 ++ does 2 4) (init Absent) = Some w /\
+            outcomes 3 w = [(0, true, true); (2, false, false); (2, false, false)] /\ answering w = true.
+Proof. eexists. split; [vm_compute; reflexivity|]. vm_compute. auto. Qed.
+(* 3. nobody can bind between another's unlink and bind: the would-be loser never records a run *)
+Example bind_first_not_executable : run (does 0 8 ++ does 1 3) (init Absent) = None.
+Proof. vm_compute. reflexivity. Qed.
+(* 4. no late unlink: a run started after the first's shutdown unlink keeps its endpoint, a third start is refused *)
+Example late_unlink_repaired :
+  exists w, run (does 0 14 ++ does 1 11 ++ does 0 2 ++ does 2 4) (init Absent) = Some w /\
+            outcomes 3 w = [(1, true, true); (0, true, true); (2, false, false)] /\ sock w = Bound 1 /\ answering w = true.
+Proof. eexists. split; [vm_compute; reflexivity|]. vm_compute. auto. Qed.
